@@ -151,6 +151,8 @@ def run(ctx):
     pool += gen_c01.path_programs(r, ctx.scale(60, 1500))
     pool += gen_c01.unknown_programs(r, ctx.scale(60, 1500))
     pool += gen_c01.compose_programs(r, ctx.scale(400, 8000))
+    # values computed by one operator (empty views, heap copies of small integers, ...) read by another
+    pool += [(p, e, "composed") for p, e in gen_prog.composed_programs(r, ctx.scale(500, 100000))]
     # directed: finding F6 reached through run_program (two 1 MiB atoms)
     f6 = gen_prog.op(bytes.fromhex("7fd0110580"), gen_prog.q(gen.Rep(0x41, 1 << 20)), gen_prog.q(gen.Rep(0x42, 1 << 20)))
     pool.append((gen.tt(f6), gen.tt(b""), "directed-F6"))
